@@ -239,6 +239,17 @@ def make_fragment(gen, r, rid, case_id, method, cell, contig, site, reverse, umi
     return recs, truth
 
 
+def add_hard_clips(r, fr):
+    """hard clips (bases the aligner removed from the record) outside everything else, on either end of either mate: no base, no
+    coordinate of the record changes"""
+    any_ = False
+    for x in fr:
+        if x.get('cigar'):
+            x['cigar'] = r.choice(['', f'{r.randint(1, 9)}H']) + x['cigar'] + r.choice(['', f'{r.randint(1, 9)}H'])
+            any_ = any_ or 'H' in x['cigar']
+    return any_
+
+
 def mutate_umi(r, umi, d):
     u = list(umi)
     for p in r.sample(range(len(u)), min(d, len(u))):
@@ -261,7 +272,7 @@ def unmapped_pair(r, rid, case_id, cell, umi, lib='LIB', mx=MX_NLA, seq_len=30, 
 def simulate_library(r, method='nla', contigs=None, n_cells=3, n_sites=10, umi_len=3, umis_per_site=(1, 3), copies=(1, 4),
                      case_id=1, p_reverse=0.5, p_clip=0.2, max_clip=6, p_invalid=0.0, p_umi_neighbour=0.3, p_mismatch=0.2,
                      frag_range=(60, 300), read_len=40, chic_trimmed=True, n_unmapped=0, p_dup_flag=0.0, p_stale=0.0,
-                     site_positions=None, lib='LIB', start_id=1, p_single_end=0.0, umi_with_n=0.0, min_gap=None, frag_len_fn=None):
+                     site_positions=None, lib='LIB', start_id=1, p_single_end=0.0, umi_with_n=0.0, min_gap=None, frag_len_fn=None, p_hard_clip=0.0):
     """Returns (genome, records, truths{id:truth}).  Sites are spaced so that fragments of different sites may overlap."""
     contigs = contigs or [('chr1', 20000)]
     gen = Genome(r, contigs)
@@ -321,6 +332,8 @@ def simulate_library(r, method='nla', contigs=None, n_cells=3, n_sites=10, umi_l
                             single_end=r.random() < p_single_end)
                         if fr is None:
                             continue
+                        if p_hard_clip and r.random() < p_hard_clip:
+                            tr['hard_clipped'] = add_hard_clips(r, fr)
                         recs.extend(fr)
                         truths[rid] = tr
                         rid += 1
